@@ -164,6 +164,11 @@ class ExecExpr(ExecCore):
         if kind == 'class':
             return SV(VCls(z3.IntVal(front.cls_id(payload))), Ty.TCls(payload))
         if kind == 'func':
+            # a function reached as <module>.<name> may be defined elsewhere (closures of a factory, re-exports): a contract
+            # registered under the access path names it
+            alias = '%s:%s' % (modname, name)
+            if payload not in SP.CONTRACTS and alias in SP.CONTRACTS:
+                payload = alias
             return SV(VNone, Ty.TFunc(payload))
         if kind == 'module':
             return SV(VNone, Ty.TModule(payload))
